@@ -72,8 +72,13 @@ func (s sortableByProperty) Less(i, j int) bool {
 			return nil
 		}
 		rt := reflect.ValueOf(value)
-		if rt.Kind() == reflect.Map && rt.Type().Key().Kind() == reflect.String {
-			elem := rt.MapIndex(reflect.ValueOf(s.key).Convert(rt.Type().Key()))
+		if rt.Kind() != reflect.Map {
+			return nil
+		}
+		// string-keyed maps, and maps keyed by an interface type (yaml makes map[any]any)
+		kt := rt.Type().Key()
+		if kt.Kind() == reflect.String || (kt.Kind() == reflect.Interface && reflect.TypeOf(s.key).Implements(kt)) {
+			elem := rt.MapIndex(reflect.ValueOf(s.key).Convert(kt))
 			if elem.IsValid() {
 				return ToLiquid(elem.Interface())
 			}
